@@ -37,7 +37,7 @@ func setup(withIndex bool) *fixture {
 	times, keys := vrt.Choose("times", 2) == 1, vrt.Choose("keys", 2) == 1
 	sh := kit.Shape{Counts: []int{n}, V1: []bool{v1}, Profile: prof}
 	l := kit.Gen(sh, times, keys)
-	if times {
+	if times && vrt.Bound("anytimes", 0) == 0 {
 		l.MonotoneTimes()
 	}
 	f := &fixture{l: l, seg: &l.Segs[0], v1: v1, params: index.Params{Times: times, Keys: keys}}
